@@ -1506,7 +1506,7 @@ func runC19(c *Ctx) {
 	}
 	c19RunFiles(c, gens, func() string { freshN++; return fmt.Sprintf("ZZ_NEW%d", freshN) })
 	if c.Drv != nil && os.Getenv("C19_ONLY_CORPUS") == "" {
-		nx := 120
+		nx := 100
 		if c.Thorough {
 			nx = 300
 		}
